@@ -25,6 +25,10 @@ def run(m, tier="quick"):
         if src.count(m["old"]) < 1:
             return "STALE (pattern not found)", ""
         src = src.replace(m["old"], m["new"], 1)
+        if "old2" in m:                      # a second site of the same edit (e.g. a helper and its call site)
+            if src.count(m["old2"]) < 1:
+                return "STALE (second pattern not found)", ""
+            src = src.replace(m["old2"], m["new2"], 1)
         open(path, "w").write(src)
         env = dict(os.environ, VERIF_REPO=tmp, VERIF_TMP=tmp)
         t0 = time.time()
